@@ -1,7 +1,9 @@
 #![feature(allocator_api)]
 #![feature(pattern)]
+#![feature(slice_index_methods)]
 #![allow(unused_imports, unused_variables, dead_code, unused_mut, unused_parens, non_snake_case, unreachable_code, unused_braces)]
 use vstd::prelude::*;
+use vstd::string::*;
 use vstd::std_specs::iter::*;
 use vstd::std_specs::hash::*;
 use std::collections::HashMap;
